@@ -80,3 +80,89 @@ def normalise(events):
             n["op"], n["i"], n["n"], n["vals"] = e["role"], e["slot"], e["n"], e["vals"]
         out.append(n)
     return out
+
+
+PUSH_OPS = {"pu", "tpu", "pun", "tpun", "cpun"}
+
+
+def is_balanced(prog):
+    """role-pure threads, blocking operations only, as many elements pushed as popped:
+    every blocking call must then return (first sentence of C02)"""
+    pushed = popped = 0
+    for th in prog:
+        roles = set()
+        for o in th:
+            if o["op"] in ("pu", "pun"):
+                roles.add("p")
+                pushed += o["n"]
+            elif o["op"] in ("po", "pon"):
+                roles.add("c")
+                popped += o["n"]
+            else:
+                return False
+        if len(roles) > 1:
+            return False
+    return pushed == popped
+
+
+def monitor_lines(events):
+    """vsched trace of one execution -> lines for BQ_Mon.tla (L1 observables only)"""
+    out = []
+    D = dict(DEF, intact=True, t0=0, t1=0, to=0, slack=0, cap=0, balanced=False, status="")
+    for e in events:
+        k = e.get("k")
+        if k == "reset":
+            p = e["params"]
+            prog = parse_prog(p["prog"])
+            out.append(dict(D, k="reset", cap=int(p["cap"]), balanced=is_balanced(prog)))
+        elif k == "call":
+            out.append(dict(D, k="call", t=e["t"], op=e["op"], n=e["n"]))
+        elif k == "ret":
+            out.append(dict(D, k="ret", t=e["t"], op=e["op"], n=e["n"], res=e["res"]))
+        elif k == "cbb":
+            out.append(dict(D, k="cbb", t=e["t"], op=e["role"], i=e["slot"], n=e["n"], vals=e["vals"]))
+        elif k == "cbe":
+            out.append(dict(D, k="cbe", t=e["t"], op=e["role"], i=e["slot"], n=e["n"], vals=e["vals"], intact=e["intact"]))
+        elif k == "final":
+            out.append(dict(D, k="final", vals=e["left"]))
+        elif k == "timed":
+            out.append(dict(D, k="timed", t=e["t"], t0=e["t0_us"], t1=e["t1_us"], to=e["to_us"], slack=1000))
+        elif k == "end":
+            out.append(dict(D, k="end", status=e.get("status", "?")))
+    return out
+
+
+def hb_lines(events, acc_of=None):
+    """vsched trace of one execution -> lines for the generic HBMon.tla.
+    acc_of(e) -> list of (cell, index, is_write) for driver payload events"""
+    out = []
+    D = {"t": 0, "k": "", "loc": "", "i": 0, "mo": "", "ok": True}
+    for e in events:
+        k = e.get("k")
+        t = max(0, e.get("t", 0))
+        if k == "reset":
+            out.append(dict(D, k="reset"))
+        elif k in ("load", "store", "xchg", "faa", "fand", "for", "fxor"):
+            out.append(dict(D, t=t, k=k, loc=e["loc"], i=e.get("i", 0), mo=e["mo"]))
+        elif k == "cas":
+            out.append(dict(D, t=t, k=k, loc=e["loc"], i=e.get("i", 0), mo=e["mo"], ok=e["ok"]))
+        elif k == "fence":
+            out.append(dict(D, t=t, k=k, mo=e["mo"]))
+        elif k in ("lock", "unlock"):
+            out.append(dict(D, t=t, k=k, loc="mutex:" + e.get("loc", ""), i=e.get("i", 0)))
+        elif k == "trylock":
+            out.append(dict(D, t=t, k=k, loc="mutex:" + e.get("loc", ""), i=e.get("i", 0), ok=e["ok"]))
+        elif k in ("spawn", "join"):
+            out.append(dict(D, t=t, k=k, i=e["child"]))
+        elif acc_of is not None:
+            for cell, idx, w in acc_of(e) or []:
+                out.append(dict(D, t=t, k="acc", loc=cell, i=idx, ok=bool(w)))
+    return out
+
+
+def bq_acc(cap):
+    def f(e):
+        if e.get("k") in ("cbb", "cbe"):
+            return [("val", (e["slot"] + j) % cap, True) for j in range(e["n"])]
+        return None
+    return f
